@@ -96,6 +96,8 @@ def forms(pid, rng):
         for n in (1, 2, 3, 5, 9):
             if pid == SMB1:
                 dl = [b"NT LM 0.12"] + [b"D%d" % i for i in range(n - 1)]
+                if n in (2, 5):
+                    dl = [b"PC NETWORK PROGRAM 1.0", b"MICROSOFT NETWORKS 3.0", b"LANMAN1.0", b"LM1.2X002", b"Samba"][:n]     # pre-NT dialects only
                 m = smb.nbss(smb.smb1_header(0x72, mid=rng.getrandbits(16)) + smb.smb1_negotiate_body(dl))
             else:
                 dl = [0x0202, 0x0210, 0x0300, 0x0302, 0x0311, 0x0001, 0x0002, 0x0003, 0x0004][:n]
